@@ -33,7 +33,7 @@ import scan_units
 import spec_emph
 
 ID = 'C14'
-EXTRA_MODULES = ['Mistletoe.Proofs.Inert', 'Mistletoe.Proofs.InertInline', 'Mistletoe.Proofs.InertInline2', 'propsdriver']
+EXTRA_MODULES = ['Mistletoe.Proofs.Inert', 'Mistletoe.Proofs.InertInline', 'Mistletoe.Proofs.InertInline2', 'Mistletoe.Proofs.InertInline3', 'propsdriver']
 RULE = ('paragraphs of 1-4 lines of 1-8 tokens from a ~120-token vocabulary (intraword underscores, isolated * - + # > = | ~ ^ $ '
         '% @, unpaired and unlinked brackets, ampersands not starting a reference, digits/dots/parentheses not forming list '
         'markers, quotes, non-ASCII letters and punctuation), kept only when the spec-derived predicate `inert` accepts them. '
@@ -41,8 +41,8 @@ RULE = ('paragraphs of 1-4 lines of 1-8 tokens from a ~120-token vocabulary (int
 TRUSTED = ['harness/props/c14.py:inert is the independent reading of the specification used as filter (conservative: it only '
            'accepts paragraphs in which the specification gives no character a meaning)']
 ASSUMPTIONS = []
-PARTIAL = ['the Lean hypotheses (`inertLine`, `proseLine`, `inertBody3` - Props/C14_Wide.lean) are sufficient conditions, not the '
-           'whole inert domain of the specification: a backslash before a non-punctuation character, "<" directly before a letter '
+PARTIAL = ['the Lean hypotheses (`inertLine`, `proseLine`, `inertBody4` - Props/C14_Wide.lean) are sufficient conditions, not the '
+           'whole inert domain of the specification: "<" directly before a letter '
            'that starts no tag, a "]" that closes no link although "(" or "[" follows are outside them; those paragraphs are covered '
            'by the exploration against the spec-derived predicate only (the evidence gives the measured share: about 95 % of the '
            'spec-derived inert domain meets the hypotheses)']
@@ -193,7 +193,7 @@ def units(ctx):
     n_spec = n_both = n_lean = n_narrow = 0
     for ls, h in zip(paras, hyps):
         spec_ok = inert(ls)
-        lean_ok = isinstance(h, dict) and all(h.get(k) for k in ('nonEmpty', 'oneLine', 'inertLine', 'proseLine', 'inertBody3'))
+        lean_ok = isinstance(h, dict) and all(h.get(k) for k in ('nonEmpty', 'oneLine', 'inertLine', 'proseLine', 'inertBody4'))
         n_spec += spec_ok
         n_lean += lean_ok
         n_narrow += bool(lean_ok and h.get('inertBody'))
@@ -207,7 +207,7 @@ def units(ctx):
             real = {'raises': type(e).__name__}
         concluded = '<p>' + esc(h['text']) + '</p>\n'
         ctx.compare('c14.theorem', {'lines': ls}, concluded, real, kind='%d-line' % len(ls))
-    ctx.notes.append('of %d generated paragraphs: %d in the spec-derived inert domain, %d meet the Lean hypotheses of C14_prose_text3 '
+    ctx.notes.append('of %d generated paragraphs: %d in the spec-derived inert domain, %d meet the Lean hypotheses of C14_prose_text4 '
                      '(%d those of the narrower C14_prose_text), %d both' % (len(paras), n_spec, n_lean, n_narrow, n_both))
 
 
